@@ -26,6 +26,8 @@ GUARDS = {
     "NormalizeCurve": ["MixedArrayLengths", "DuplicateRawValues"],
     "NormalizeCurveZScore": ["MixedArrayLengths"],
 }
+# parameter pairs documented as (lowest value, highest value) of the output range (docs/user/lib-eems-basic.rst: Normalize, NormalizeZScore)
+ORDERED_BOUNDS = (("StartVal", "EndVal"),)
 CONVERSIONS = ("CvtToFuzzy", "CvtToFuzzyZScore", "CvtToFuzzyCat", "CvtToFuzzyCurve", "CvtToFuzzyMeanToMid", "CvtToFuzzyCurveZScore", "CvtToBinary", "CvtFromFuzzy",
                "Normalize", "NormalizeZScore", "NormalizeCat", "NormalizeCurve", "NormalizeMeanToMid", "NormalizeCurveZScore")
 
@@ -243,6 +245,24 @@ def run(ctx, idx):
         dtype_rule(ctx, "C08.d", d, r)
         R.uses_all_inputs(ctx, "C08.e", d, r)
     ctx.rule("C08.g", "Optional numeric parameters are never tested by truthiness (an explicit 0 is a legitimate threshold/value).")
+    ctx.rule("C08.i", "A clamp never inverts: wherever a conversion limits its result to [lo, hi] the bounds are constants with lo <= hi or a parameter pair documented as (lowest, highest); a clamp between two thresholds that may come in either order turns the whole grid into one constant when lo > hi.")
+    for name in CONVERSIONS:
+        d, r = res[name]
+        for n, s_, v in R.ret_sites(d, r):
+            if not isinstance(v, Arr) or v.rng == (None, None):
+                continue
+            lo, hi = v.rng
+            con = R.ret_key(d, n) + "::clamp-bounds-ordered"
+            if lo is None or hi is None:
+                continue
+            if lo[0] == "c" and hi[0] == "c":
+                ctx.ob("C08.i", con, d.module.rel, R.line_of(s_), lo[1] <= hi[1], "clamped to the constants [%s, %s]" % (lo[1], hi[1]) if lo[1] <= hi[1] else "clamped to [%s, %s]: the lower bound exceeds the upper, every cell becomes %s" % (lo[1], hi[1], lo[1]))
+                continue
+            pair = tuple(sorted(x for b in (lo, hi) for x in __import__("re").findall(r"kw:(\w+)", str(b[1]))))
+            documented = any(str(lo[1]).count("kw:" + a) and str(hi[1]).count("kw:" + b) for a, b in ORDERED_BOUNDS)
+            ctx.ob("C08.i", con, d.module.rel, R.line_of(s_), documented,
+                   "clamped to the documented (lowest, highest) pair %s" % (pair,) if documented else
+                   "the result is clamped to [%s, %s], bounds that may come in either order: when the first exceeds the second every cell collapses to one value (the conversion is no longer the inverse / a monotone map between the thresholds)" % (lo[1], hi[1]))
     ctx.rule("C08.h", "NormalizeMeanToMid builds its five raw control points as [min, mean of lower part, mean, mean of upper part, max] where min and max are reductions over the whole input (IgnoreZeros only affects the means, as documented).")
     for name in CONVERSIONS:
         d, r = res[name]
